@@ -28,7 +28,7 @@ def cases(tier):
     return cs
 
 
-def make_spec(sp, tier, family):
+def make_spec(sp, tier, family, own_fixed=None):
     """family 'layout': all tensor shapes vary, head structure fixed; family 'structure': shapes fixed, head structure varies"""
     S = SHAPES_T if tier == "thorough" else SHAPES_Q
     if family == "layout":
@@ -57,7 +57,7 @@ def make_spec(sp, tier, family):
             own = [2, 1][t]
             fs = (["f1"], ["f1", "f2"])[t] if two_feats else ["f1"]
         else:
-            own = choice(3, f"own_param_{t}")  # 0: none, 1: 0-d, 2: (2,)
+            own = own_fixed[t] if own_fixed is not None else choice(3, f"own_param_{t}")  # 0: none, 1: 0-d, 2: (2,)
             fs = [["f1"], ["f2"], ["f1", "f2"]][choice(3, f"head_feats_{t}")] if two_feats else ["f1"]
         ins = list(fs)
         params = []
